@@ -178,7 +178,11 @@ func TestStoreStatus(t *testing.T) {
 			defer wg.Done()
 			defer func() { <-sem }()
 			tStart := time.Now()
+			mark := vt.EnvMark()
 			evs := runStatus(ctx, be.etcd, "etcd", j.run, j.ops, realClock{tStart})
+			if vt.EnvFailedSince(mark) {
+				return
+			}
 			if jit.StarvedSince(tStart) { // real-time lifetimes cannot be judged when the process was starved of CPU
 				return
 			}
